@@ -3,7 +3,7 @@ import CbiVerif.Model.FindFold
 import CbiVerif.Model.FindInst
 import CbiVerif.Model.FindCache
 /-! driver op for C08: `c08find` — `FindInst.findI` (model), `FindInst.specI` (stateless union),
-optionally the state-threading port `PP.find` for a three-way comparison, and `FindCache.findC`
+optionally the state-threading run of the same C-family instance (`FindInst.findPP`, field `pp`), and `FindCache.findC`
 (`cached`: the total model with the explicit shared parse cache, the subject of Part 3 of
 `Props/C08.lean`) with its mixing log and the evaluated conclusion of `find_cached_eq_findG_partial`. -/
 open Lean CbiVerif.PP CbiVerif.FindFold CbiVerif.FindInst
@@ -34,12 +34,13 @@ def resultJson (fs : FSMap) (r : Except Err (Acc NodeKey Warn)) : Json :=
                 ("warns", Json.arr (a.warns.map warnJson).toArray),
                 ("npairs", (a.pairs.length : Nat))]
 
-def ppJson (fs : FSMap) (st : PState) : Json :=
-  match st.err with
-  | some e => Json.mkObj [("exc", toString (repr e))]
-  | none =>
-    Json.mkObj [("ok", filesJson fs fun f i => canon (((st.assoc.find? (·.1 == (f, i))).map (·.2)).getD [])),
-                ("warns", Json.arr (st.warns.map warnJson).toArray)]
+/-- field `pp`: the state-threading run of the C-family instance (`FindInst.findPP`) -/
+def ppJson (fs : FSMap) (r : Except Err (Acc NodeKey Warn)) : Json :=
+  match r with
+  | .error e => Json.mkObj [("exc", toString (repr e))]
+  | .ok a =>
+    Json.mkObj [("ok", filesJson fs fun f i => platformsOfKey a.pairs (f, i)),
+                ("warns", Json.arr (a.warns.map warnJson).toArray)]
 
 def clsName : CbiVerif.Exclude.LClass → String
   | .c => "c" | .fortran => "fortran" | .asm => "asm"
@@ -58,7 +59,8 @@ def accEq (a b : Except Err (Acc NodeKey Warn)) : Bool :=
   | _, _ => false
 
 /-- `FindCache.findC` with the semantics `FindCache.semC files` -/
-def cachedJson (files : FSMap) (fuel : Nat) (codebase : List String) (cfg : Config Entry) : List (String × Json) :=
+def cachedJson (files : FSMap) (fuel : Nat) (codebase : List String) (cfg : Config Entry)
+    (withEq : Bool := false) : List (String × Json) :=
   let S := CbiVerif.FindCache.semC files
   let r := CbiVerif.FindCache.findC S fuel codebase cfg
   let mixed := CbiVerif.FindCache.mixLog S fuel codebase cfg
@@ -76,7 +78,11 @@ def cachedJson (files : FSMap) (fuel : Nat) (codebase : List String) (cfg : Conf
       Json.arr #[Json.str m.file, Json.str (clsName m.used),
                  match m.ref with | some rc => Json.str (clsName rc) | none => Json.null]).toArray),
    ("cached_eq_ref", accEq r ref),
-   ("ref_exc", match ref with | .error e => Json.str (toString (repr e)) | .ok _ => Json.null)]
+   ("ref_exc", match ref with | .error e => Json.str (toString (repr e)) | .ok _ => Json.null)] ++
+  -- hypothesis `ClassOK` and conclusion of `C08.findI_eq_cached_engine_partial`, evaluated (fuel = the model's)
+  (if withEq then [("class_ok", Json.bool (ClassOK files codebase cfg)),
+                   ("model_eq_cached", Json.bool (accEq (findIN fuel files codebase cfg) r))]
+   else [])
 
 def handle (j : Json) : Json :=
   let files : FSMap := match j.getObjVal? "files" with
@@ -100,8 +106,8 @@ def handle (j : Json) : Json :=
   Json.mkObj ([("model", resultJson files (findI files codebase cfg)),
                ("spec", resultJson files (specI files codebase cfg)),
                ("platforms", Json.arr (cfg.map fun pe => Json.str pe.1).toArray)] ++
-              (if withPP then [("pp", ppJson files (find files codebase cfg))] else []) ++
-              (if withCached then cachedJson files fuel codebase cfg else []))
+              (if withPP then [("pp", ppJson files (findPP fuel files codebase cfg))] else []) ++
+              (if withCached then cachedJson files fuel codebase cfg true else []))
 
 def handlers : List (String × (Json → Json)) := [("c08find", handle)]
 
